@@ -81,6 +81,8 @@ def run_poly(bus, ex, rng, D, N, C, L, band):
             ref = tp.on_grid(M)
             mon = "map_finer" if M > N else "map_coarser"
             bus.judge(mon, float(np.max(np.abs(got - ref))) / S, 256 * EPS * (1 + np.log2(max(N, M) ** D)), sig, sample=info, witness=dict(info, err=float(np.max(np.abs(got - ref)))), nontrivial=Kp > 0)
+            got_nz = np.asarray(ex.map_between_resolutions(jnp.asarray(u), M, oddball_zero=False))      # Nyquist-free input: the option must not matter
+            bus.judge(mon, float(np.max(np.abs(got_nz - ref))) / S, 256 * EPS * (1 + np.log2(max(N, M) ** D)), sig + ("oddball_zero=False",), witness=dict(info, option="oddball_zero=False"), nontrivial=Kp > 0)
             back = np.asarray(ex.map_between_resolutions(jnp.asarray(got), N))
             bus.judge("roundtrip", float(np.max(np.abs(back - u))) / S, 256 * EPS * (1 + np.log2(max(N, M) ** D)), sig, sample=info, witness=info, nontrivial=Kp > 0)
         else:
